@@ -1,5 +1,18 @@
+#[cfg(not(ruler_verif))]
 use std::thread;
+#[cfg(not(ruler_verif))]
 use std::sync::mpsc::
+{
+    self,
+    Sender,
+    Receiver,
+    SendError,
+    RecvError,
+};
+#[cfg(ruler_verif)]
+use crate::verif_sched::thread;
+#[cfg(ruler_verif)]
+use crate::verif_sched::mpsc::
 {
     self,
     Sender,
